@@ -393,7 +393,9 @@ PROPS = {
         not_covered=['the characters std produces for a usize (dec_text is uninterpreted: non-empty digits, read back by parse)',
                      'which texts usize::from_str accepts beyond canonical numerals ("+5", "007" are accepted by std: not "malformed")',
                      'kid() lookups with parsed vs constructed labels: composition with C03, not a separate obligation'],
-        assumptions=['the std contracts of shim/stdstr.rs'],
+        parts=[parts.native_audit('native-audit-of-the-trusted-std-contracts')],
+        assumptions=['the std contracts of shim/stdstr.rs (audited natively in the thorough tier: exhaustive over char for '
+                     'Display of char and str::len, sampled otherwise; an audit, not a proof)'],
     ),
     'C11': dict(
         units=['U_mergelog', 'U_ops'], level='proof',
@@ -525,7 +527,8 @@ PROPS = {
         not_covered=['from_str(print(h)) == h is decided as "same byte string" (view); that == on Hex is equality of the byte strings is '
                      'the Kani eq harness; the characters format!/hex::decode exchange are a trusted axiom (axiom_02x_decode)'],
         parts=[parts.kani_group('kani-hex-inline-complete', C15_COMPLETE, complete=True),
-               parts.kani_group('kani-hex-heap-bounded', C15_BOUNDED, complete=False, tier='thorough')],
+               parts.kani_group('kani-hex-heap-bounded', C15_BOUNDED, complete=False, tier='thorough'),
+               parts.native_audit('native-audit-of-the-trusted-std-and-hex-crate-contracts')],
         back_end_extra='Kani 0.68.0 -> CBMC 6.11 -> CaDiCaL for the Index/IndexMut/eq/i64/f64 harnesses',
         assumptions=['Hex values satisfy the representation invariant inline-length <= 8 (the variants are public; '
                      'a hand-built Bytes(_, 9) is outside the property)'],
